@@ -219,6 +219,16 @@ Definition range_go (args : list Z) : res (list Z) :=
          if i+step < i { break }                          if i-Abs(step) > i { break }
      }                                                }
 
+   Since a549427 (the float64 repair, modelled in C13_ModelFloat) the source reads
+
+         n := N(NumToString(i)); if !(T(n) < end) { break }; append n; if !(i+step > i) { break }
+
+   (resp. !(end < T(n)), !(i-Abs(step) < i)).  For an integer T this is the loop
+   above: n = i (printing and parsing an integer is the identity) and i < end has
+   just been tested, so the first break never fires; and !(i+step > i) is
+   i+step < i because a wrapped i+step is never equal to i for a non-zero step
+   of the type (C13_Props.C13_range_break_tests_int / _uint). 
+
    (In the unbounded reading [range_go] the two break tests are never true —
    step >= 1 whenever a body runs — so they do not appear there.)  The fuel is
    the constant [cap], never a function of the arguments: nothing huge is ever
